@@ -1,6 +1,7 @@
 import Tw.Model.Map
 import Tw.Model.Inflate
 import Tw.Drv.Util
+import Tw.Drv.Datafile
 
 /-! Line protocol for domain `map` (implementation side: `harness/src/d_map.rs`).
 
@@ -195,8 +196,37 @@ def openLine (bs : List UInt8) : String :=
     | .ok s => s
     | .error () => "panic-acc"
 
+/-- `fopen`: the file-backed datafile reader opened at an offset; items and data -/
+def fopenLine (file : List UInt8) (start : Nat) : String :=
+  match fileOpen file start with
+  | .panic _ => "panic-new"
+  | .err e => s!"err {e.name}"
+  | .ok r =>
+    let res : Acc String := do
+      let ni ← match r.numItemsU with | .ok n => pure n | _ => throw ()
+      let nd ← match r.numDataU with | .ok n => pure n | _ => throw ()
+      let mut is : List String := []
+      for i in List.range ni do
+        match r.item i with
+        | .ok v => is := is ++ [s!"{v.typeId}.{v.id}.{toHex (bytesOfWords v.data)}"]
+        | _ => throw ()
+      let mut ds : List String := []
+      for i in List.range nd do
+        match r.readData z i with
+        | .ok bs => ds := ds ++ [toHex bs]
+        | .err e => ds := ds ++ [s!"e:{e.name}"]
+        | .panic _ => throw ()
+      pure s!"ok {Tw.Drv.Datafile.verStr r.version} {ni},{nd} I={listStr is} D={listStr ds}"
+    match res with
+    | .ok s => s
+    | .error () => "panic-acc"
+
 def handle (toks : List String) : String :=
   match toks with
+  | ["fopen", st, h, _, _] =>
+    match parseNat st, parseHex h with
+    | some st, some bs => fopenLine bs st
+    | _, _ => "bad-op"
   | ["mopen", h] =>
     match parseHex h with
     | some bs => openLine bs
